@@ -185,6 +185,14 @@ class Hub:
                             continue    # an integer renders as digits / hex digits / sign: no separators, no dots
                     out |= self.label_operand(body, a, depth + 1, self._seen)
                 return out
+            if c in ('std::path::Path::ancestors', 'std::iter::Iterator::skip', 'std::iter::Iterator::take', 'std::iter::Iterator::take_while',
+                     'std::iter::Iterator::skip_while', 'std::iter::Iterator::rev'):
+                # walking up from a path: every item is the path itself or one of its parents
+                t = body.blocks[o.bb]['term']
+                out = self.label_operand(body, t['args'][0], depth + 1, self._seen)
+                if c == 'std::path::Path::ancestors':
+                    out = set(out) | {SIBLING}
+                return out
             if c in (self.tmp_of, 'std::path::Path::join', 'std::path::Path::parent', 'std::path::Path::with_extension',
                      'std::path::Path::with_file_name', 'std::path::PathBuf::from', 'std::path::Path::strip_prefix',
                      'std::path::Path::file_stem', 'std::path::Path::file_name', 'std::path::Path::extension', 'std::ffi::OsStr::to_string_lossy',
@@ -412,6 +420,56 @@ class Hub:
                     pb = self.F.body(bp)
                     work += [(pb, a) for a in pb.blocks[o.bb]['term'].get('args', []) if a['k'] != 'const']
         return False
+
+    def ancestor_walk_bound(self, body, op):
+        """for a path that is an item of `p.ancestors()...`: ('components' | 'raw' | 'none', description) - what limits how far the
+        walk climbs: a `take(n)` whose n counts the components of a Path, a `take(n)` whose n is computed from the text of a string,
+        or nothing"""
+        fl = flow_of(body)
+        work, seen = [op], set()
+        take_ns, saw_anc = [], False
+        while work and len(seen) < 40:
+            cur = work.pop()
+            for o in fl.origins(cur):
+                k = (o.kind, str(o.key), o.bb)
+                if k in seen or o.kind != 'call' or o.bb is None:
+                    continue
+                seen.add(k)
+                c = str(o.key)
+                t = body.blocks[o.bb]['term']
+                if c == 'std::path::Path::ancestors':
+                    saw_anc = True
+                elif c == 'std::iter::Iterator::take' and len(t['args']) > 1:
+                    take_ns.append(t['args'][1])
+                    work.append(t['args'][0])
+                elif c in ('std::iter::Iterator::next', 'std::iter::Iterator::skip', 'std::iter::Iterator::rev', 'std::iter::Iterator::skip_while', 'std::iter::Iterator::take_while'):
+                    work.append(t['args'][0])
+        if not saw_anc:
+            return None
+        if not take_ns:
+            return ('none', 'the walk up is not limited')
+        kinds = set()
+        for n in take_ns:
+            stack, seen2 = [n], set()
+            while stack and len(seen2) < 60:
+                cur = stack.pop()
+                for o in fl.origins(cur):
+                    k = (o.kind, str(o.key), o.bb)
+                    if k in seen2:
+                        continue
+                    seen2.add(k)
+                    if o.kind == 'call' and o.bb is not None:
+                        c = str(o.key)
+                        if c == 'std::path::Path::components':
+                            kinds.add('components')
+                        elif 'str>::matches' in c or 'str>::split' in c or 'str>::len' in c or 'str>::chars' in c or 'str>::bytes' in c or 'str>::find' in c:
+                            kinds.add('raw')
+                        stack += [a for a in body.blocks[o.bb]['term'].get('args', []) if a['k'] != 'const']
+        if 'raw' in kinds:
+            return ('raw', 'the number of levels is computed from the text of the request path')
+        if 'components' in kinds:
+            return ('components', 'the number of levels is the number of components of the path')
+        return ('none', 'the limit of the walk is not derived from the path')
 
     def appended(self, body, op):
         """identity of the suffix appends behind a path value: frozenset of (body, block) of `OsString::push` calls on the
